@@ -63,7 +63,13 @@ func runPlan(prop string, plan []planItem) int {
 	defer pool.Close()
 	budget := 100 * time.Second
 	if rep.Thorough() {
-		budget = 17 * time.Minute
+		budget = 11 * time.Minute
+	}
+	// statement-granularity pass (thorough, second run on the -stmt build): every statement of the instrumented files is a
+	// scheduling point, so unsynchronised accesses to shared state become visible; smaller deviation bound
+	stmtPass := os.Getenv("VERIF_STMT") != ""
+	if stmtPass {
+		budget = 6 * time.Minute
 	}
 	deadline := time.Now().Add(budget)
 	var states, transitions, traces int64
@@ -78,6 +84,14 @@ func runPlan(prop string, plan []planItem) int {
 		}
 		if bound < 0 {
 			continue
+		}
+		if stmtPass && prop != "C08" {
+			if bound > 2 {
+				bound = 2
+			}
+			if strings.Contains(pi.Sc.Name, "3") || strings.Contains(pi.Sc.Name, "lock4") {
+				bound = 1 // three or more request threads: ~400 points per execution
+			}
 		}
 		// iterate the bound 0,1,..,bound so the first counterexample has the fewest deviations
 		var last explore.Result
@@ -113,7 +127,11 @@ func runPlan(prop string, plan []planItem) int {
 			labels = append(labels, fmt.Sprintf("%s=%d", k, v))
 		}
 		sort.Strings(labels)
-		perScenario[pi.Sc.Name] = map[string]interface{}{"bound_completed": completed, "executions": last.Execs, "scheduling_points": last.Points, "max_depth": last.MaxDepth, "distinct_end_states": last.States, "outcomes": labels, "wall_s": last.Wall, "hb_pruned_subtrees": last.Pruned}
+		scName := pi.Sc.Name
+		if stmtPass {
+			scName += " [stmt granularity]"
+		}
+		perScenario[scName] = map[string]interface{}{"bound_completed": completed, "executions": last.Execs, "scheduling_points": last.Points, "max_depth": last.MaxDepth, "distinct_end_states": last.States, "outcomes": labels, "wall_s": last.Wall, "hb_pruned_subtrees": last.Pruned}
 		fmt.Printf("  %-28s bound=%d execs=%d pruned=%d points=%d states=%d depth=%d wall=%.1fs outcomes: %s\n", pi.Sc.Name, completed, last.Execs, last.Pruned, last.Points, last.States, last.MaxDepth, last.Wall, strings.Join(labels, " "))
 		if len(last.Labels) < 2 {
 			fmt.Printf("  note: scenario %s shows a single outcome (does not count as non-trivial)\n", pi.Sc.Name)
